@@ -168,6 +168,17 @@ func (d *Document) AddListItem(text string, config *ListConfig) *Paragraph {
 		}
 	}
 
+	// 编号定义只包含 0-8 共 9 个级别：超出范围的级别收敛到最近的有效级别（不修改调用方的配置）
+	if config.IndentLevel < 0 || config.IndentLevel > 8 {
+		clamped := *config
+		if clamped.IndentLevel < 0 {
+			clamped.IndentLevel = 0
+		} else {
+			clamped.IndentLevel = 8
+		}
+		config = &clamped
+	}
+
 	// 确保编号管理器已初始化
 	d.ensureNumberingInitialized()
 
